@@ -24,6 +24,7 @@ RULE = ("stream 'chunking': random sequences of non-empty frames (1 B..>64 KiB, 
         "delivered frame is decoded by the Lean coder model as well; "
         "stream 'zero': headers announcing zero-length frames (model validation only). Non-trivial/distinct = distinct (frame sizes, cut points, tail) tuple.")
 RULE += (' Payloads made of length-prefixed records (a piece of a frame that is itself a well-formed frame), read in pieces ending at the inner boundaries.')
+RULE += (' Streams of 1100-5000 small frames in one read.')
 ASSUMPTIONS = ["CPython bytearray slicing/extend semantics", "struct.pack/unpack '>I'",
                "the lower layer delivers chunks sequentially (one network thread)"]
 EXHAUSTIVE = {"thorough": False}
